@@ -29,6 +29,11 @@ def canon_visit_statement(ctx, R):
     if fn is None:
         ctx.missing(R, "visit_statement")
         return None
+    from astlib import inline_helpers
+
+    # private helpers factored out of an arm are read as part of it (the recursive visitor and the block constructor
+    # are the vocabulary of the rules and stay calls)
+    fn = inline_helpers(fn, LF, exclude=("visit_statement", "complete_basic_block", "build_basic_blocks"))
     f, miss = alpha.canon(fn, VS_ROLES)
     if miss:
         ctx.missing(R, "visit_statement/roles", "cannot identify %s" % miss)
@@ -327,6 +332,12 @@ def result_exprs(body):
         out.append(render(e0).replace(" ", "").replace(",", ", ").replace(", ", ","))
 
     rec(body)
+    # values returned early (`return Ok(x);` in a let-else / guard) are results of the arm as well
+    for n in walk(body):
+        if n["k"] == "Return" and n.get("e") is not None:
+            t_ = render(n["e"]).replace(" ", "")
+            if t_ not in out:
+                out.append(t_)
     return [x.replace(",", ", ") if False else x for x in out]
 
 
